@@ -350,9 +350,18 @@ def build_unit(u, outpath, probe_fn=None, drop_fns=()):
     (reachability probe).  Returns dict with text, linemap, info."""
     b = Builder()
     info = {"functions": [], "stubs": [], "items": [], "clauses": [], "loops": [], "spec_sha": None}
-    b.gen("#![feature(proc_macro_hygiene)]\n#![allow(unused, non_snake_case, non_camel_case_types, non_upper_case_globals)]\n"
+    b.gen("#![feature(proc_macro_hygiene)]\n#![feature(allocator_api)]\n#![allow(unused, non_snake_case, non_camel_case_types, non_upper_case_globals)]\n"
           "use vstd::prelude::*;\n")
     for p in u.preambles:
+        if p.startswith("gen:"):
+            # generated preamble (bounded checks inside the verifier): vx/<name>.py generate(tier) -> (text, meta)
+            import importlib
+            gmod = importlib.import_module("vx." + p[4:])
+            gtxt, gmeta = gmod.generate(os.environ.get("VX_TIER", "quick"))
+            info.setdefault("generated", []).append({"generator": p[4:], **gmeta})
+            for n, ln in enumerate(gtxt.split("\n")):
+                b.add(ln + "\n", ("pre", p, n + 1))
+            continue
         pp = os.path.join(VERIF, "specs", p)
         for n, ln in enumerate(open(pp).read().split("\n")):
             b.add(ln + "\n", ("pre", p, n + 1))
@@ -403,9 +412,19 @@ def build_unit(u, outpath, probe_fn=None, drop_fns=()):
                     # header + chosen methods + close
                     emit_range(b, d, m.file, it["core_start"], it["brace_open"] + 1, [], m.renames)
                     b.gen("\n")
+                    deferred = []
                     for fidx in sorted(set(sel_methods[idx])):
-                        emit_fn(b, u, m, d, items, fidx, info, used_fns, probe_fn)
+                        emit_fn(b, u, m, d, items, fidx, info, used_fns, probe_fn, deferred)
                     b.gen("}\n")
+                    if deferred:
+                        # native-syntax stubs need the whole impl inside verus!{}: a second impl block with the same header
+                        b.gen("verus! {\n")
+                        emit_range(b, d, m.file, it["core_start"], it["brace_open"] + 1, [], m.renames)
+                        b.gen("\n")
+                        for segs in deferred:
+                            for txt, origin in segs:
+                                b.add(txt, origin)
+                        b.gen("}\n}\n")
                 elif it["kind"] in ("impl", "trait"):
                     # whole impl: weave children that have contracts
                     inserts = []
@@ -448,7 +467,7 @@ def build_unit(u, outpath, probe_fn=None, drop_fns=()):
     return {"text": text, "linemap": linemap, "info": info}
 
 
-def emit_fn(b, u, m, d, items, idx, info, used_fns, probe_fn):
+def emit_fn(b, u, m, d, items, idx, info, used_fns, probe_fn, deferred=None):
     it = items[idx]
     full = "%s::%s" % (m.name, it["path"])
     fs = u.fns.get(full)
@@ -456,6 +475,26 @@ def emit_fn(b, u, m, d, items, idx, info, used_fns, probe_fn):
         # R8: signature from source, body dropped, assumed contract
         used_fns.add(full)
         src = d["src"]
+        spec_txt = spec_lines_to_text(fs.spec)
+        mret = re.match(r"^\s*(\w+)\s*=>", spec_txt)
+        if (mret and it.get("parent") is not None and not it.get("has_self") and not it.get("inputs", "").strip()
+                and items[it["parent"]]["kind"] == "impl" and items[it["parent"]].get("impl_generics", "")):
+            # a parameter-less associated fn of a generic impl: the dummy trick below cannot infer the generics;
+            # emit the stub in native verus! syntax instead (same signature, named return)
+            sig = src[it["sig_start"]:it["sig_end"]].decode()
+            outp = it.get("output", "").strip()
+            sig2 = sig[:sig.rfind("->")] + "-> (%s: %s)" % (mret.group(1), outp)
+            clauses = spec_txt[mret.end():].strip().rstrip(",")
+            first = fs.spec[0][0] if fs.spec else fs.line
+            if deferred is None:
+                raise Undecided("native stub needs a partially selected impl: %s" % full)
+            deferred.append([
+                ("#[verifier::external_body]\n" + ("" if sig.startswith("pub") else "pub ") + sig2 + "\n", ("repo", m.file, line_of(src, it["sig_start"]))),
+                ("    " + clauses + "\n", ("spec", fs.specfile, first - 1, full, fs.props)),
+                ("{ unimplemented!() }\n", ("gen", "R8"))])
+            info["stubs"].append(full)
+            b.rule_counts["R8"] = b.rule_counts.get("R8", 0) + 1
+            return
         attr = weave_attr(fs, full, probe=False)
         b.add(attr[0], attr[1])
         b.add("#[verifier::external_body]\n", ("gen", "R8"))
